@@ -93,3 +93,20 @@ _m("C12", "the four real limiter functions are called on arrays of 4000 hostile 
           "oracle asserts zero at extrema, sign, <= 2 min and <= max bounds, and re-invokes the same real function for the "
           "symmetric, odd, scalar-vs-array, homogeneous (lambda = 2^7, 2^-5, 3.7, 1e-3) and diagonal twins.  non-trivial: every "
           "call with at least one same-sign pair; distinct = hash(limiter, first pairs).")
+
+_m("C13", "metamorphic twins through the same real code: each generated 1D problem (all models incl. nozzle with a section law, all "
+          "fluxes, all reconstructions/limiters, uniform/refined/morphed/arbitrary meshes, periodic/wall/every inlet-outlet-"
+          "dirichlet type on either side, all 15 integrators, 1-8 steps) is rebuilt (i) mirrored (faces -xf reversed, velocities / "
+          "convection speed negated, boundary conditions exchanged) and (ii) in other units with power-of-4 factors spanning "
+          "4^+-10; rhs and solve results must be the mirror image / the rescaled result: bit-identical (np.array_equal) for "
+          "explicit integrators x {convection, shallow water, Euler, nozzle} x reconstructions without regularisation constants, "
+          "within tolerance otherwise (Burgers scalar pow, regularised limiters scaled up only, implicit 1e-5).  non-trivial: "
+          "finite non-zero residual; distinct = hash(config + data + factors).")
+
+_m("C14", "rolled twins through the same real code on uniform periodic meshes: 1D exhaustive over sizes n=1..12 and all shifts k<n "
+          "(78 pairs x repeats), each with a random model (incl. nozzle with constant section), flux, reconstruction/limiter and "
+          "integrator (all 15), rhs and 1-6 step solves compared after rolling (tol 1e-10 on the flux scale: linspace cell sizes "
+          "differ by ulps; implicit 1e-4 with measured amplification); 2D exhaustive over nx,ny=1..5 and all shifts in x, y and both "
+          "(euler2d x {centered,hlle} x {extrapol2d1, extrapol2dk(k)} x explicit integrators), compared bitwise.  non-trivial: "
+          "finite non-zero residual; distinct = hash(config + data + shift).",
+   exhaustive_groups=["shift1d ((n,k) pairs for n=1..12)", "shift2d ((nx,ny,kx,ky) for nx,ny=1..5)"])
